@@ -269,6 +269,9 @@ func (pe *pathExplorer) AtomName(cond ssa.Value, pol bool) (string, bool) {
 		pe.AtomVals = map[string]atomVal{}
 	}
 	// the atom has value (pol == a.Pol) when cond has value pol: atom = cond if a.Pol == pol, else ¬cond
+	if old, have := pe.AtomVals[name]; have && old.v == cond {
+		return name, a.Pol // keep the binding recorded with the first naming
+	}
 	pe.AtomVals[name] = atomVal{cond, a.Pol != pol, nil}
 	return name, a.Pol
 }
@@ -603,6 +606,13 @@ func (pe *pathExplorer) Paths() []*cfgPath {
 							if readsMemory(a.E) {
 								name = fmt.Sprintf("%s@%d", name, pe.epoch(xin))
 							}
+							if pe.AtomVals == nil {
+								pe.AtomVals = map[string]atomVal{}
+							}
+							if _, have := pe.AtomVals[name]; !have {
+								// the condition with the resolved operand (a value of its own, outside any block)
+								pe.AtomVals[name] = atomVal{&ssa.BinOp{Op: bo.Op, X: x, Y: bo.Y}, a.Pol != (k == 0), copyBind(st.bind)}
+							}
 							if old, ok := atoms[name]; ok {
 								if old == a.Pol {
 									walk(s, st)
@@ -615,10 +625,12 @@ func (pe *pathExplorer) Paths() []*cfgPath {
 					}
 				}
 				name, val := pe.AtomName(cond, k == 0)
-				if bnd, ok := pe.valBind[cond]; ok {
-					av := pe.AtomVals[name]
-					av.bind = bnd
-					pe.AtomVals[name] = av
+				if in, ok := cond.(ssa.Instruction); ok && in.Parent() != pe.fn && len(st.bind) > 0 {
+					// a condition computed in a spliced helper: its parameters stand for what this path bound them to
+					if av := pe.AtomVals[name]; av.bind == nil {
+						av.bind = copyBind(st.bind)
+						pe.AtomVals[name] = av
+					}
 				}
 				if old, ok := atoms[name]; ok {
 					if old != val {
@@ -750,4 +762,15 @@ func onlyFieldStores(al *ssa.Alloc) bool {
 		}
 	}
 	return true
+}
+
+func copyBind(m map[ssa.Value]ssa.Value) map[ssa.Value]ssa.Value {
+	if len(m) == 0 {
+		return nil
+	}
+	out := make(map[ssa.Value]ssa.Value, len(m))
+	for k, v := range m {
+		out[k] = v
+	}
+	return out
 }
